@@ -82,7 +82,7 @@ var templates = []tmpl{
 	{name: "augment-without-nodes-of-a-target-that-cannot-have-children", augment: true, files: []string{
 		`module m { ` + hdr("m") + ` yang-version 1.1; container top { leaf lf { type string; } leaf-list ll { type string; } anyxml ax; anydata ad; %PAD } }`,
 		`module a { ` + hdr("a") + ` import m { prefix m; } grouping nothing { description "no data nodes"; } augment /m:top/m:%LEAFY { %EMPTYBODY } }`}},
-	{name: "augment-through-an-implicit-case-brings-a-choice", clean: true, files: []string{
+	{name: "augment-through-an-implicit-case-brings-a-choice", augment: true, clean: true, files: []string{
 		`module m { ` + hdr("m") + ` container c { choice ch { container x { leaf l { type string; } } } %PAD } }`,
 		`module b { ` + hdr("b") + ` import m { prefix m; } augment /m:c/m:ch/m:x/m:x { choice inner { leaf p { type string; } container q { choice deeper { leaf-list r { type string; } } } } leaf plain { type string; } } }`}},
 	{name: "augment-path-leaves-out-an-explicit-case", augment: true, files: []string{
@@ -94,7 +94,7 @@ var templates = []tmpl{
 	{name: "not-supported-twice-in-one-deviation", files: []string{
 		`module m { ` + hdr("m") + ` container c { leaf x { type string; } leaf y { type string; } %PAD } }`,
 		`module d { ` + hdr("d") + ` import m { prefix m; } deviation /m:c/m:x { deviate not-supported; deviate not-supported; } }`}},
-	{name: "unprefixed-paths-written-in-a-submodule", clean: true, present: [][]string{{"top", "x"}, {"c", "y"}}, defaults: map[string]string{"sc/sl": "dx", "c/l": "dy"}, files: []string{
+	{name: "unprefixed-paths-written-in-a-submodule", augment: true, clean: true, present: [][]string{{"top", "x"}, {"c", "y"}}, defaults: map[string]string{"sc/sl": "dx", "c/l": "dy"}, files: []string{
 		`module m { ` + hdr("m") + ` include s; container c { leaf l { type string; } %PAD } }`,
 		`submodule s { belongs-to m { prefix m; } container top { } container sc { leaf sl { type string; } } augment "/top" { leaf x { type string; } } augment /c { leaf y { type string; } } deviation /sc/sl { deviate add { default "dx"; } } deviation /c/l { deviate add { default "dy"; } } }`}},
 	{name: "not-supported-on-rpc-input-or-output", clean: true, gone: []string{"r"}, files: []string{
